@@ -24,11 +24,14 @@ FaultMethods(f) ==
     [] f = "roots_shooting" -> {"MS", "SS"}
     [] f = "alg_explicit_euler" -> {"MS", "SS"}
     [] f = "inf_no_guarantee" -> {"MS", "SS"}      \* grid='inf' with a scheme that has no degree-4 dense output (C15)
+    [] f = "inf_nonpolynomial" -> {"MS", "SS", "DC"} \* grid='inf' on sin / exp / sqrt / quotient of the states: no polynomial certificate exists (C15)
+    [] f = "no_value_clone" -> {"MS", "SS", "DC"}    \* two stages cloned from one template; only one of them gets a value for the template's parameter
     [] OTHER -> Methods
 Faults == {"none", "no_der", "no_value", "no_method", "no_solver", "signal_objective", "nonscalar_objective",
            "set_value_nonparam", "set_initial_param", "set_initial_unknown", "unknown_grid_subject_to", "unknown_grid_sample",
            "foreign_symbol_constraint", "foreign_symbol_objective", "foreign_symbol_ode", "false_constant_constraint",
-           "alg_explicit", "spline_timevar", "spline_nonlin", "horizon_in_ode", "roots_shooting", "no_next", "inf_no_guarantee", "alg_explicit_euler", "false_after_fill"}
+           "alg_explicit", "spline_timevar", "spline_nonlin", "horizon_in_ode", "roots_shooting", "no_next", "inf_no_guarantee", "alg_explicit_euler", "false_after_fill",
+           "inf_nonpolynomial", "no_value_clone"}
 (* omission faults have no position: the step is simply missing *)
 Omission == {"no_der", "no_value", "no_method", "no_solver", "no_next"}
 
@@ -39,6 +42,7 @@ Cfgs == {c \in [fault : Faults, meth : Methods, where : Where, pos : Positions] 
             /\ c.meth \in FaultMethods(c.fault)
             /\ (c.fault \in Omission \cup {"none"} => c.pos = "late")
             /\ (c.fault = "no_next" => c.meth \in {"MS", "SS"})
+            /\ (c.fault = "no_value_clone" => c.where = "sub" /\ c.pos = "late")
             /\ (c.fault \in {"inf_no_guarantee", "alg_explicit_euler"} => c.pos # "early")}     \* it replaces the method, so it must come after ocp.method
 
 Init == cfg \in Cfgs /\ defects = {} /\ phase = "declaring" /\ raised = FALSE /\ solverCalls = 0
